@@ -125,6 +125,7 @@ class Path:
         self.entries = []  # semantic memo: (tag, [argument forms], extra, result)
         self.events = []  # free-form records made by the interpreter (mutations, raises, ...)
         self.closed = False  # set when the task has returned: later queries must not fork
+        self.dead = False  # found infeasible after it was closed
 
     def choose(self, label):
         if self.closed:
@@ -300,6 +301,11 @@ def bounds(a):
     if P.cons or True:
         flo, fhi = _fm_bounds(a)
         if flo == "dead":
+            if P.closed:
+                # the path turned out to be infeasible only now (a query brought the contradiction out): whatever is
+                # asked about it holds vacuously
+                P.dead = True
+                return Fr(0), Fr(0)
             raise DeadPath()
         if flo is not None:
             lo = flo if lo is None else max(lo, flo)
